@@ -4,11 +4,18 @@
 // regal's own capability predicates and every rule's `notices` / `report` directly (bypassing main.rego;
 // these are the oracle tables of the model), and runs the real Linter.Lint on trigger policies.
 //
-//	c19 <out.jsonl> <quick|thorough|replay> <repo-root> <tmp-dir> [cases.json]
+//	c19 <out.jsonl> <quick|thorough|replay> <repo-root> <tmp-dir> [cases.json [generated.json]]
+//
+// generated.json: [{"set": name, "in": CaseIn}] -- targets whose capabilities come from a GENERATED capabilities file
+// (capabilities.from.file): tools/props/c19.py derives the capability dimensions the gates read (built-in functions,
+// future keywords, features) and asks for every subset of them, which no embedded version and no plus/minus edit
+// can produce (minus cannot remove keywords or features).
 package main
 
 import (
 	"context"
+	"crypto/sha256"
+	"encoding/hex"
 	"encoding/json"
 	"fmt"
 	"os"
@@ -139,6 +146,15 @@ type Target struct {
 	PlusBare []string `json:"plus_bare"` // added by name only (no decl)
 	// added the way the README writes it: type and result next to decl ({name, type, decl: {args}, result})
 	PlusReadme []string `json:"plus_readme"`
+	// capabilities.from.file pointing at a generated file: the embedded capabilities of Version (this OPA's when
+	// empty) with exactly these future_keywords and features and without these built-in functions
+	Gen *GenCaps `json:"gen,omitempty"`
+}
+
+type GenCaps struct {
+	FutureKeywords  []string `json:"future_keywords"`
+	Features        []string `json:"features"`
+	WithoutBuiltins []string `json:"without_builtins"`
 }
 
 func (t Target) key() string { b, _ := json.Marshal(t); return string(b) }
@@ -191,6 +207,15 @@ type CaseOut struct {
 }
 
 var interesting = []string{"sprintf", "strings.count", "object.keys", "count", "indexof_n", "any", "regex.match"}
+
+func addInteresting(n string) {
+	for _, x := range interesting {
+		if x == n {
+			return
+		}
+	}
+	interesting = append(interesting, n)
+}
 
 func must(err error) {
 	if err != nil {
@@ -265,7 +290,9 @@ func (t Target) yamlDoc(e *env, disabled []string) map[string]any {
 	}
 	doc := map[string]any{"rules": rulesDoc}
 	caps := map[string]any{}
-	if t.Engine != "" {
+	if t.Gen != nil {
+		caps["from"] = map[string]any{"file": e.genCapsFile(t.Version, t.Gen)}
+	} else if t.Engine != "" {
 		if t.File {
 			caps["from"] = map[string]any{"file": e.capsFile(t.Version)}
 		} else {
@@ -333,6 +360,44 @@ func (e *env) capsFile(version string) string {
 	c, err := ast.LoadCapabilitiesVersion(version)
 	must(err)
 	bs, err := json.Marshal(c)
+	must(err)
+	must(os.WriteFile(p, bs, 0o644))
+	return p
+}
+
+// genCapsFile writes a capabilities file made from the embedded capabilities of a version: the built-in functions
+// without the listed ones, exactly the given future keywords and features
+func (e *env) genCapsFile(version string, g *GenCaps) string {
+	capsFileMu.Lock()
+	defer capsFileMu.Unlock()
+	key, _ := json.Marshal([]any{version, g})
+	sum := sha256.Sum256(key)
+	p := filepath.Join(e.tmp, "gencaps_"+hex.EncodeToString(sum[:8])+".json")
+	if _, err := os.Stat(p); err == nil {
+		return p
+	}
+	var base *ast.Capabilities
+	if version == "" {
+		base = ast.CapabilitiesForThisVersion()
+	} else {
+		var err error
+		base, err = ast.LoadCapabilitiesVersion(version)
+		must(err)
+	}
+	c := *base
+	c.Builtins = nil
+	for _, b := range base.Builtins {
+		drop := false
+		for _, n := range g.WithoutBuiltins {
+			drop = drop || b.Name == n
+		}
+		if !drop {
+			c.Builtins = append(c.Builtins, b)
+		}
+	}
+	c.FutureKeywords = append([]string{}, g.FutureKeywords...)
+	c.Features = append([]string{}, g.Features...)
+	bs, err := json.Marshal(&c)
 	must(err)
 	must(os.WriteFile(p, bs, 0o644))
 	return p
@@ -527,7 +592,33 @@ func main() {
 		var ins []CaseIn
 		must(json.Unmarshal(bs, &ins))
 		for _, in := range ins {
+			if in.Target.Gen != nil {
+				for _, n := range in.Target.Gen.WithoutBuiltins {
+					addInteresting(n)
+				}
+			}
 			jobs = append(jobs, job{"corpus", "", in})
+		}
+	}
+	if len(os.Args) > 6 {
+		bs, err := os.ReadFile(os.Args[6])
+		must(err)
+		var gs []struct {
+			Set string `json:"set"`
+			In  CaseIn `json:"in"`
+		}
+		must(json.Unmarshal(bs, &gs))
+		for _, g := range gs {
+			if g.In.Target.Gen != nil {
+				// the names the generated files vary are reported back among the builtins as loaded
+				for _, n := range g.In.Target.Gen.WithoutBuiltins {
+					addInteresting(n)
+				}
+			}
+			if g.Set != "" && len(g.In.Files) == 0 {
+				g.In.Files = fileSets[g.Set]
+			}
+			jobs = append(jobs, job{"gen", g.Set, g.In})
 		}
 	}
 	if tier != "replay" {
